@@ -12,9 +12,13 @@ GB = b"Ffm" + b"\x01\x01\x13" + b"\x02\x02\x00\x78" + b"\x03\x02\x00\x13" + b"\x
 def mutate(sim, frame, kind_hint):
     """frame = transport data (D4/D5 ..) -> (label, bytes)"""
     m = sim.pick("dep.mut", ["none", "trunc", "extend", "byte", "flip", "empty", "garbage", "cmd", "short3", "gbtrunc",
-                             "pfb", "did", "rtox-nodata", "raw-empty", "raw-sb-only", "raw-short"])
+                             "pfb", "did", "rtox-nodata", "raw-empty", "raw-sb-only", "raw-short", "rtox-valid", "rtox-valid"])
     if m == "rtox-nodata":
         return "%s:%s" % (kind_hint, m), bytes(frame[:2]) + b"\x90"
+    if m == "rtox-valid":
+        # a well-formed timeout extension request; the byzantine target answers the initiator's RTOX response with
+        # another RTOX that carries no value byte (second and later RTOX of one exchange)
+        return "%s:%s" % (kind_hint, m), bytes(frame[:2]) + b"\x90" + bytes([sim.pick("dep.rtox", [1, 0, 59, 60, 255])])
     if m.startswith("raw-"):
         # air frame given verbatim (no start byte / length byte added by wrap)
         return "%s:%s" % (kind_hint, m), {"raw-empty": b"RAW", "raw-sb-only": b"RAW\xF0", "raw-short": b"RAW\xF0\x03"}[m]
